@@ -24,9 +24,11 @@ import (
 )
 
 const (
-	watchdog   = 20 * time.Second      // generous: fires only when something is stuck (inconclusive)
-	probeGrace = 25 * time.Millisecond // write grace towards a server that may have stopped reading after GOAWAY
-	heldGrace  = 300 * time.Millisecond
+	watchdog    = 20 * time.Second      // generous: fires only when something is stuck (inconclusive)
+	probeGrace  = 25 * time.Millisecond // write grace towards a server that may have stopped reading after GOAWAY
+	heldGrace   = 300 * time.Millisecond
+	deadGrace   = 40 * time.Millisecond
+	silentGrace = 200 * time.Millisecond
 )
 
 type Step struct {
@@ -86,22 +88,25 @@ type pend struct {
 }
 
 type stats struct {
-	frames      map[string]int64
-	kinds       map[string]int64
-	rst         map[string]int64
-	goaway      map[string]int64
-	fences      int64
-	starts      int64
-	responses   int64
-	resp4xx     int64
-	settingsAck int64
-	pingAck     int64
-	benignRST   int64
-	probes      int64
-	probesSent  int64
-	holds       int64
-	queuedStart int64
-	superseded  int64
+	frames       map[string]int64
+	kinds        map[string]int64
+	rst          map[string]int64
+	goaway       map[string]int64
+	fences       int64
+	starts       int64
+	responses    int64
+	resp4xx      int64
+	settingsAck  int64
+	pingAck      int64
+	benignRST    int64
+	probes       int64
+	probesSent   int64
+	holds        int64
+	queuedStart  int64
+	superseded   int64
+	srvReturned  int64
+	srvLingering int64
+	silentDead   int64
 }
 
 func newStats() *stats {
@@ -144,6 +149,7 @@ type conn struct {
 	followUp   bool
 	broken     bool // a write failed while reads were held
 	groupTag   string
+	silent     bool // fell silent after its graceful GOAWAY (taken as connection error)
 
 	steps []Step
 	trace []string
@@ -255,6 +261,10 @@ func (c *conn) armWrite() {
 	c.wmu.Lock()
 	if c.goawaySeen {
 		c.hc.SetWriteDeadline(time.Now().Add(probeGrace))
+	} else if c.sawGrace {
+		// after its graceful GOAWAY the server signals a connection error by silence only
+		// (see fenceAndJudge); a framing error also stops its reader: blocked write
+		c.hc.SetWriteDeadline(time.Now().Add(silentGrace))
 	} else if c.held {
 		// reads are held, so a GOAWAY cannot be seen: a write that blocks means the
 		// server stopped reading (terminal framing error); found out by a short deadline
@@ -366,6 +376,17 @@ func (c *conn) exec(s Step) {
 				c.broken = true // settled when reads are released
 				break
 			}
+			if c.sawGrace && !c.peer.Ended() && c.pendingAllowsConnErr() {
+				select {
+				case <-c.watchDone:
+				default:
+					c.st.silentDead++
+					c.silent = true
+					c.logf("< (write blocked for %v after the server's graceful GOAWAY: it stopped reading; taken as a connection error without a second GOAWAY)", silentGrace)
+					c.judge(c.peer.Len() - 1)
+					return
+				}
+			}
 			if !c.goawayOrEOFSoon() {
 				c.inconclusive("rig", "write of %s failed: %v", v.Desc, err)
 				return
@@ -393,8 +414,22 @@ func (c *conn) fenceAndJudge() {
 		return
 	}
 	c.armWrite()
-	idx, res := c.peer.FenceOrGoAway(c.cursor, watchdog)
+	wd := watchdog
+	if c.sawGrace && c.pendingAllowsConnErr() {
+		// Upstream never writes a second GOAWAY: a connection error after its graceful
+		// GOAWAY(NO_ERROR) only makes it fall silent and close a second later (5.4.1
+		// says SHOULD send GOAWAY, MUST close). Do not sit that out.
+		wd = silentGrace
+	}
+	idx, res := c.peer.FenceOrGoAway(c.cursor, wd)
 	c.st.fences++
+	if (res == h2peer.FenceTimeout || res == h2peer.FenceWriteErr) && wd == silentGrace && !c.peer.Ended() {
+		c.st.silentDead++
+		c.silent = true
+		c.logf("< (no PING ACK within %v after the server's graceful GOAWAY: taken as a connection error without a second GOAWAY)", silentGrace)
+		c.judge(c.peer.Len() - 1)
+		return
+	}
 	switch res {
 	case h2peer.FenceTimeout, h2peer.FenceWriteErr:
 		if c.peer.Ended() {
@@ -408,7 +443,7 @@ func (c *conn) fenceAndJudge() {
 			idx = j
 			break
 		}
-		c.inconclusive("watchdog", "fence: %v after %v", res, watchdog)
+		c.inconclusive("watchdog", "fence: %v after %v", res, wd)
 		return
 	}
 	c.judge(idx)
@@ -420,6 +455,8 @@ type reaction struct {
 	code http2.ErrCode
 	last uint32
 	ev   string
+
+	anyCode bool // the server ended the connection without naming a code
 }
 
 func (r reaction) String() string { return r.ev }
@@ -483,7 +520,7 @@ func (c *conn) judge(upto int) {
 				continue
 			}
 			c.srvReset[e.StreamID] = true
-			reacts = append(reacts, reaction{h2peer.OutStreamErr, e.StreamID, e.ErrCode, 0, e.String()})
+			reacts = append(reacts, reaction{kind: h2peer.OutStreamErr, sid: e.StreamID, code: e.ErrCode, ev: e.String()})
 		case http2.FrameGoAway:
 			c.st.goaway[e.ErrCode.String()]++
 			c.mu.Lock()
@@ -504,7 +541,7 @@ func (c *conn) judge(upto int) {
 				c.sawGrace = true
 			} else {
 				c.dead = true
-				reacts = append(reacts, reaction{h2peer.OutConnErr, 0, e.ErrCode, e.LastStreamID, e.String()})
+				reacts = append(reacts, reaction{kind: h2peer.OutConnErr, code: e.ErrCode, last: e.LastStreamID, ev: e.String()})
 			}
 		}
 		if !(e.Is(http2.FramePing)) {
@@ -516,6 +553,11 @@ func (c *conn) judge(upto int) {
 		}
 	}
 	c.cursor = upto + 1
+	if (c.silent || (c.eof && c.sawGrace)) && !c.dead && c.pendingAllowsConnErr() {
+		// connection error signalled by closing only (after a GOAWAY was already sent)
+		c.dead = true
+		reacts = append(reacts, reaction{kind: h2peer.OutConnErr, anyCode: true, ev: "connection error without a second GOAWAY (server silent / closed after its GOAWAY(NO_ERROR))"})
+	}
 	if c.eof && c.sawGrace && !c.dead {
 		// the server said GOAWAY(NO_ERROR) after ours and closed once no stream was
 		// left (upstream: one second later): a regular end, nothing left to judge
@@ -535,7 +577,7 @@ func (c *conn) judge(upto int) {
 		matched := false
 		if j < len(reacts) {
 			r := reacts[j]
-			if v.Allows(r.kind, r.sid, r.code) {
+			if v.Allows(r.kind, r.sid, r.code) || (r.anyCode && len(v.ConnErr) > 0) {
 				out, matched = r.kind, true
 				j++
 			}
@@ -659,6 +701,15 @@ func (c *conn) judge(upto int) {
 	if c.fail == nil {
 		c.groupTag = ""
 	}
+}
+
+func (c *conn) pendingAllowsConnErr() bool {
+	for _, p := range c.pending {
+		if len(p.v.ConnErr) > 0 {
+			return true
+		}
+	}
+	return false
 }
 
 func hasConnErr(rs []reaction) bool {
@@ -895,7 +946,13 @@ func (c *conn) finish(probeSID uint32, probe []byte) {
 		}
 	}
 	if c.dead && !c.eof && c.fail == nil && probe != nil {
-		<-c.watchDone
+		if c.silent {
+			c.wmu.Lock()
+			c.goawaySeen = true
+			c.wmu.Unlock()
+		} else {
+			<-c.watchDone
+		}
 		c.st.probes++
 		v := c.ref.Expect(probe)
 		if v.StartSID != 0 {
@@ -916,10 +973,25 @@ func (c *conn) finish(probeSID uint32, probe []byte) {
 	}
 	c.mu.Unlock()
 	c.hc.Close()
-	select {
-	case <-c.srvDone:
-	case <-time.After(watchdog):
-		c.inconclusive("watchdog", "ServeConn did not return within %v after the client closed", watchdog)
+	lingering := false
+	if c.dead {
+		// After a connection error found by its frame reader the server no longer reads,
+		// so it notices our close only when its own one-second GOAWAY timer fires. No
+		// frame is processed any more, hence no handler can start: do not sit that out.
+		select {
+		case <-c.srvDone:
+			c.st.srvReturned++
+		case <-time.After(deadGrace):
+			c.st.srvLingering++
+			lingering = true
+		}
+	} else {
+		select {
+		case <-c.srvDone:
+			c.st.srvReturned++
+		case <-time.After(watchdog):
+			c.inconclusive("watchdog", "ServeConn did not return within %v after the client closed", watchdog)
+		}
 	}
 	<-c.watchDone
 	// handlers that started have returned (conn gone, gates open); give the log its final state
@@ -932,6 +1004,9 @@ func (c *conn) finish(probeSID uint32, probe []byte) {
 	}
 	c.mu.Unlock()
 	for _, h := range hs {
+		if lingering {
+			break // handlers blocked in Body.Read return when the server's own timer closes the connection
+		}
 		select {
 		case <-h.exited:
 		case <-time.After(watchdog):
